@@ -44,7 +44,8 @@ theorem C06_init_parses :
     (∃ u, (lex (strInts Gen.initLA)).toOption.bind (fun ts => (parseUnit ts).toOption) = some u ∧
         (u.preds.map (·.name)) = [nm "Impulse", nm "Interval"]) ∧
     (∃ u, (lex (strInts Gen.initDL)).toOption.bind (fun ts => (parseUnit ts).toOption) = some u ∧
-        (u.preds.map (·.name)) = [nm "Impulse", nm "Interval"]) := by sorry
+        (u.preds.map (·.name)) = [nm "Impulse", nm "Interval"]) := by
+  refine ⟨⟨InitRule.laUnit, InitRule.parse_LA, ?_⟩, ⟨InitRule.dlUnit, InitRule.parse_DL, ?_⟩⟩ <;> rfl
 
 /-- LA: the body of `Interval` forces origin ≤ start ≤ end ≤ horizon and duration = end − start ≥ 0 -/
 theorem C06_interval_rule_wf (u : CompUnit) (p : PredDecl)
@@ -52,26 +53,71 @@ theorem C06_interval_rule_wf (u : CompUnit) (p : PredDecl)
     (hp : p ∈ u.preds) (hn : p.name = nm "Interval") (σ : Name → Rat)
     (hb : ∀ s ∈ p.body, stmtHolds σ s) :
     σ (nm "origin") ≤ σ (nm "start") ∧ σ (nm "start") ≤ σ (nm "end") ∧ σ (nm "end") ≤ σ (nm "horizon") ∧
-    σ (nm "duration") = σ (nm "end") - σ (nm "start") ∧ 0 ≤ σ (nm "duration") := by sorry
+    σ (nm "duration") = σ (nm "end") - σ (nm "start") ∧ 0 ≤ σ (nm "duration") := by
+  obtain rfl := InitRule.unit_LA hu
+  obtain rfl := InitRule.pred_interval_LA hp hn
+  have h1 := hb _ (List.mem_cons_self ..)
+  have h2 := hb _ (List.mem_cons_of_mem _ (List.mem_cons_self ..))
+  have h3 := hb _ (List.mem_cons_of_mem _ (List.mem_cons_of_mem _ (List.mem_cons_self ..)))
+  have h4 := hb _ (List.mem_cons_of_mem _ (List.mem_cons_of_mem _ (List.mem_cons_of_mem _ (List.mem_cons_self ..))))
+  simp only [InitRule.cmp, InitRule.v, stmtHolds, arithVal, List.foldl, InitRule.zero_toRat] at h1 h2 h3 h4
+  simp only [nm]
+  refine ⟨h1, ?_, h2, h3, h4⟩
+  linarith
 
 /-- DL: the body of `Interval` forces origin ≤ start ≤ end ≤ horizon -/
 theorem C06_interval_rule_wf_dl (u : CompUnit) (p : PredDecl)
     (hu : (lex (strInts Gen.initDL)).toOption.bind (fun ts => (parseUnit ts).toOption) = some u)
     (hp : p ∈ u.preds) (hn : p.name = nm "Interval") (σ : Name → Rat)
     (hb : ∀ s ∈ p.body, stmtHolds σ s) :
-    σ (nm "origin") ≤ σ (nm "start") ∧ σ (nm "start") ≤ σ (nm "end") ∧ σ (nm "end") ≤ σ (nm "horizon") := by sorry
+    σ (nm "origin") ≤ σ (nm "start") ∧ σ (nm "start") ≤ σ (nm "end") ∧ σ (nm "end") ≤ σ (nm "horizon") := by
+  obtain rfl := InitRule.unit_DL hu
+  obtain rfl := InitRule.pred_interval_DL hp hn
+  have h1 := hb _ (List.mem_cons_self ..)
+  have h2 := hb _ (List.mem_cons_of_mem _ (List.mem_cons_self ..))
+  have h3 := hb _ (List.mem_cons_of_mem _ (List.mem_cons_of_mem _ (List.mem_cons_self ..)))
+  simp only [InitRule.cmp, InitRule.v, stmtHolds, arithVal] at h1 h2 h3
+  simp only [nm]
+  exact ⟨h1, h2, h3⟩
 
 /-- the body of `Impulse` forces origin ≤ at ≤ horizon (both variants) -/
 theorem C06_impulse_rule_wf (txt : String) (ht : txt = Gen.initLA ∨ txt = Gen.initDL) (u : CompUnit) (p : PredDecl)
     (hu : (lex (strInts txt)).toOption.bind (fun ts => (parseUnit ts).toOption) = some u)
     (hp : p ∈ u.preds) (hn : p.name = nm "Impulse") (σ : Name → Rat)
     (hb : ∀ s ∈ p.body, stmtHolds σ s) :
-    σ (nm "origin") ≤ σ (nm "at") ∧ σ (nm "at") ≤ σ (nm "horizon") := by sorry
+    σ (nm "origin") ≤ σ (nm "at") ∧ σ (nm "at") ≤ σ (nm "horizon") := by
+  have key : ∀ tp, p = InitRule.impulse tp →
+      σ (nm "origin") ≤ σ (nm "at") ∧ σ (nm "at") ≤ σ (nm "horizon") := by
+    rintro tp rfl
+    have h1 := hb _ (List.mem_cons_self ..)
+    have h2 := hb _ (List.mem_cons_of_mem _ (List.mem_cons_self ..))
+    simp only [InitRule.cmp, InitRule.v, stmtHolds, arithVal] at h1 h2
+    simp only [nm]
+    exact ⟨h1, h2⟩
+  rcases ht with rfl | rfl
+  · obtain rfl := InitRule.unit_LA hu
+    exact key _ (InitRule.pred_impulse_LA hp hn)
+  · obtain rfl := InitRule.unit_DL hu
+    exact key _ (InitRule.pred_impulse_DL hp hn)
 
 /-- the top-level statements force 0 ≤ origin ≤ horizon (both variants) -/
 theorem C06_origin_nonneg (txt : String) (ht : txt = Gen.initLA ∨ txt = Gen.initDL) (u : CompUnit)
     (hu : (lex (strInts txt)).toOption.bind (fun ts => (parseUnit ts).toOption) = some u) (σ : Name → Rat)
     (hb : ∀ s ∈ u.stmts, (match s with | .localField _ _ => True | _ => stmtHolds σ s)) :
-    0 ≤ σ (nm "origin") ∧ σ (nm "origin") ≤ σ (nm "horizon") := by sorry
+    0 ≤ σ (nm "origin") ∧ σ (nm "origin") ≤ σ (nm "horizon") := by
+  have key : ∀ tp, u.stmts = InitRule.topStmts tp →
+      0 ≤ σ (nm "origin") ∧ σ (nm "origin") ≤ σ (nm "horizon") := by
+    intro tp hs
+    rw [hs] at hb
+    have h1 := hb _ (List.mem_cons_of_mem _ (List.mem_cons_of_mem _ (List.mem_cons_self ..)))
+    have h2 := hb _ (List.mem_cons_of_mem _ (List.mem_cons_of_mem _ (List.mem_cons_of_mem _ (List.mem_cons_self ..))))
+    simp only [InitRule.cmp, InitRule.v, stmtHolds, arithVal, InitRule.zero_toRat] at h1 h2
+    simp only [nm]
+    exact ⟨h1, h2⟩
+  rcases ht with rfl | rfl
+  · obtain rfl := InitRule.unit_LA hu
+    exact key _ rfl
+  · obtain rfl := InitRule.unit_DL hu
+    exact key _ rfl
 
 end Oratio
